@@ -163,10 +163,19 @@ func config(tier string, cases []oneCase, replayHooks []hx.HookSpec, drivers []s
 				return first
 			}
 			last := path[len(path)-1]
-			if last.Op.DisableHooks || last.Op.Kind == "uninstall" {
-				return nil // hooks-disabled steps and uninstall end a history
+			if last.Op.DisableHooks {
+				return nil // hooks-disabled steps end a history
 			}
 			r, _, failures := model(init, hooks, path)
+			if last.Op.Kind == "uninstall" {
+				// a failed uninstall is tried again (once): a pre-delete hook that failed
+				// must gate the second attempt too; after a failed post-delete hook the
+				// release is gone and nothing may be touched
+				if r.Failed && failures == 1 && !r.Deleted {
+					return []opspace.Step{{Op: unX}}
+				}
+				return nil
+			}
 			if r.Failed {
 				// after a failed operation (injected fault or natural conflict)
 				if failures > 1 {
@@ -269,7 +278,7 @@ func run(c *core.Ctx) {
 	config(c.Tier, cases, nil, drivers).Run(c)
 	markCtx = nil
 	var fam []string
-	for _, f := range []string{"F1", "F1b", "F1e", "F1r", "Fs", "Fse", "F2", "F3m", "F3p", "F3o", "Fw2", "Fw3", "F2e"} {
+	for _, f := range []string{"F1", "F1b", "F1e", "F1r", "Fs", "Fse", "Fwr", "F2", "F3m", "F3p", "F3o", "Fw2", "Fw3", "F2e"} {
 		if perFamily[f] > 0 {
 			fam = append(fam, fmt.Sprintf("%s=%d", f, perFamily[f]))
 		}
@@ -280,7 +289,7 @@ func run(c *core.Ctx) {
 	c.Bound("filler_units", fmt.Sprintf("%d no-op units per driver (counted as transitions) that only balance the shards", fillers))
 	c.Bound("initial_clusters", fmt.Sprintf("%d (hook set, initial cluster) pairs: clean; one stale object per hook; all hooks stale (Fw2, Fw3: clean only)", len(cases)-fillers))
 	c.Bound("histories", "install -> {upgrade -> {rollback -> U"+map[bool]string{true: " | U", false: ""}[thorough]+"} | U}, U = uninstall | uninstall --keep-history; every step also with hooks disabled (terminal); "+
-		"failed upgrade -> rollback; hook sets not running at install: install -> upgrade -> upgrade(c-1) -> rollback; install/upgrade --atomic --no-hooks with the readiness wait failing"+
+		"failed uninstall -> uninstall again; failed upgrade -> rollback; hook sets not running at install: install -> upgrade -> upgrade(c-1) -> rollback; install/upgrade --atomic --no-hooks with the readiness wait failing"+
 		map[bool]string{true: "; uninstall after every failed step; Fw3: first two operations only", false: "; any other failed step ends the history; Fw3: first operation only"}[thorough])
 	c.Bound("faults", "each hook create request rejected, each hook WatchUntilReady failing; at most one per history; plus the readiness wait of install/upgrade --atomic --no-hooks")
 	c.Bound("drivers", strings.Join(drivers, ","))
